@@ -1,1 +1,350 @@
-fn main() {}
+//! E-buf: the stream simulator (DESIGN §2.3).
+//!
+//!   buf batch --seed S --tag T --from A --to B --profile laws|typed|adapters|write|byz --steps N [--journal F] [--emit F]
+//!   buf replay FILE
+//!   buf replay-many FILE
+
+#[cfg(feature = "simalloc")]
+#[global_allocator]
+static GLOBAL: rt::alloc::SimAlloc = rt::alloc::SimAlloc;
+
+mod byz;
+mod gets;
+mod node;
+mod read;
+mod write;
+
+use std::collections::{BTreeMap, HashSet};
+use std::io::Write as _;
+
+use rt::journal::Journal;
+use rt::{mix, Rng, Violation, J};
+
+fn arg(args: &[String], k: &str) -> Option<String> {
+    args.iter().position(|a| a == k).and_then(|i| args.get(i + 1).cloned())
+}
+
+pub struct Outcome {
+    pub viol: Vec<Violation>,
+    pub ops: Vec<J>,
+    pub steps: usize,
+    pub panics: u64,
+    pub straddles: u64,
+    pub shortfalls: u64,
+    pub probes: BTreeMap<&'static str, u64>,
+    pub digest: u64,
+}
+
+impl Outcome {
+    fn deep_clone(&self) -> Outcome {
+        Outcome {
+            viol: self.viol.iter().map(|v| Violation { props: v.props.to_vec(), kind: v.kind.as_str().to_string(), detail: v.detail.as_str().to_string(), step: v.step }).collect(),
+            ops: self.ops.iter().map(|o| J::parse(&o.dump()).unwrap()).collect(),
+            steps: self.steps,
+            panics: self.panics,
+            straddles: self.straddles,
+            shortfalls: self.shortfalls,
+            probes: self.probes.iter().map(|(k, v)| (*k, *v)).collect(),
+            digest: self.digest,
+        }
+    }
+}
+
+fn hexs(b: &[u8]) -> String {
+    b.iter().map(|x| format!("{:02x}", x)).collect()
+}
+
+/// C10 stratified cell: (method, nbytes, position of a chunk boundary inside the value, shortfall).
+fn typed_grid(i: u64, rng: &mut Rng) -> (J, Vec<J>) {
+    let mut names: Vec<String> = Vec::new();
+    for t in ["get_", "try_get_"] {
+        for f in gets::FIXED {
+            names.push(format!("{}{}", t, f));
+        }
+        for f in gets::VAR {
+            names.push(format!("{}{}", t, f));
+        }
+    }
+    let m = &names[(i % names.len() as u64) as usize];
+    let mut j = i / names.len() as u64;
+    let meth = gets::parse(m).unwrap();
+    let nb = if meth.var {
+        let v = (j % 9) as usize;
+        j /= 9;
+        v
+    } else {
+        0
+    };
+    let size = if meth.var { nb } else { meth.size };
+    // boundary position 0..=size (0 and size = no boundary inside), shortfall 0..=size
+    let cut = (j % (size as u64 + 1)) as usize;
+    j /= size as u64 + 1;
+    let short = if j % 3 == 0 { (j / 3 % (size as u64 + 1)) as usize } else { 0 };
+    // value bytes: sign-bit patterns plus random
+    let mut val = vec![0u8; size];
+    match rng.below(6) {
+        0 => val.iter_mut().for_each(|b| *b = 0xff),
+        1 => {
+            if size > 0 {
+                val[0] = 0x80
+            }
+        }
+        2 => {
+            if size > 0 {
+                val[size - 1] = 0x80
+            }
+        }
+        3 => val.iter_mut().for_each(|b| *b = 0x7f),
+        _ => rng.fill(&mut val),
+    }
+    let have = size - short.min(size);
+    let pre = rng.range(0, 3);
+    let suf = if short > 0 { 0 } else { rng.range(0, 3) };
+    let mut first = rng.bytes(pre);
+    first.extend_from_slice(&val[..cut.min(have)]);
+    let mut second = val[cut.min(have)..have].to_vec();
+    second.extend_from_slice(&rng.bytes(suf));
+    let kinds = ["slice", "bytes_vec", "bytes_mut", "cursor_vec", "deque", "seg", "bytes_shared", "cursor_slice"];
+    let mk = |rng: &mut Rng, d: &[u8]| J::obj().set("k", *rng.pick(&kinds)).set("hex", hexs(d)).set("n", d.len()).set("seed", 0u64).set("pre", rng.range(0, 3));
+    let mut plan = J::obj().set("k", "chain").set("a", mk(rng, &first)).set("b", mk(rng, &second));
+    match rng.below(4) {
+        0 => plan = J::obj().set("k", "mutref").set("in", plan),
+        1 => plan = J::obj().set("k", "box").set("in", plan),
+        2 => plan = J::obj().set("k", "dyn").set("in", plan),
+        _ => {}
+    }
+    let ops = vec![J::obj().set("op", "advance").set("n", pre), J::obj().set("op", "get").set("m", m.as_str()).set("nb", nb)];
+    (plan, ops)
+}
+
+fn run_one(mode: &str, focus: &str, plan: &J, given: Option<&[J]>, rng: &mut Rng, steps: usize, journal: &mut Journal) -> Outcome {
+    match mode {
+        "write" => {
+            let r = write::run(plan, given, rng, steps, journal);
+            Outcome { viol: r.viol, ops: r.ops, steps: r.steps, panics: r.panics, straddles: 0, shortfalls: 0, probes: r.probes, digest: r.digest.0 }
+        }
+        "byz" => byz::run(plan, given, rng, steps, journal),
+        _ => {
+            let r = read::run(plan, given, rng, steps, focus, journal);
+            Outcome { viol: r.viol, ops: r.ops, steps: r.steps, panics: r.panics, straddles: r.straddles, shortfalls: r.shortfalls, probes: r.probes, digest: r.digest.0 }
+        }
+    }
+}
+
+fn shape_hash(p: &J, f: &mut rt::Fnv) {
+    f.str(p.str("k").unwrap_or(""));
+    for k in ["a", "b", "in"] {
+        if let Some(c) = p.get(k) {
+            shape_hash(c, f);
+        }
+    }
+    f.u64((p.us("n").min(3) + p.us("cap").min(3) * 4) as u64);
+}
+
+fn depth(p: &J) -> usize {
+    1 + ["a", "b", "in"].iter().filter_map(|k| p.get(k)).map(depth).max().unwrap_or(0)
+}
+
+fn main() {
+    std::env::set_var("RUST_BACKTRACE", "0");
+    rt::silence_panics();
+    let args: Vec<String> = std::env::args().collect();
+    let mode = args.get(1).map(|s| s.as_str()).unwrap_or("");
+    let out = std::io::stdout();
+    match mode {
+        "batch" => {
+            let seed: u64 = arg(&args, "--seed").and_then(|s| s.parse().ok()).unwrap_or(1);
+            let tag: u64 = arg(&args, "--tag").and_then(|s| s.parse().ok()).unwrap_or(0);
+            let from: u64 = arg(&args, "--from").and_then(|s| s.parse().ok()).unwrap_or(0);
+            let to: u64 = arg(&args, "--to").and_then(|s| s.parse().ok()).unwrap_or(1);
+            let profile = arg(&args, "--profile").unwrap_or_else(|| "laws".into());
+            let steps: usize = arg(&args, "--steps").and_then(|s| s.parse().ok()).unwrap_or(30);
+            let max_viol: usize = arg(&args, "--max-viol").and_then(|s| s.parse().ok()).unwrap_or(5);
+            let mut journal = match arg(&args, "--journal") {
+                Some(p) => Journal::open(&p),
+                None => Journal::none(),
+            };
+            let mut emit = arg(&args, "--emit").map(|p| std::fs::File::create(p).expect("emit file"));
+            let (rmode, focus) = match profile.as_str() {
+                "write" => ("write", ""),
+                "byz" => ("byz", ""),
+                "typed" => ("read", "typed"),
+                "adapters" => ("read", "adapters"),
+                _ => ("read", "laws"),
+            };
+            let mut total_steps = 0u64;
+            let mut probes: BTreeMap<&'static str, u64> = BTreeMap::new();
+            let mut nontrivial: HashSet<u64> = HashSet::new();
+            let mut shapes: HashSet<u64> = HashSet::new();
+            let (mut panics, mut straddles, mut shortfalls, mut viol_runs) = (0u64, 0u64, 0u64, 0usize);
+            let mut samples: Vec<J> = Vec::new();
+            for i in from..to {
+                let run_seed = mix(&[seed, tag, i]);
+                let mut rng = Rng::new(run_seed);
+                rt::alloc::begin_run(rt::alloc::AllocCfg {
+                    parity: *rng.pick(&[rt::alloc::Parity::Even, rt::alloc::Parity::Odd, rt::alloc::Parity::Mixed]),
+                    realloc: *rng.pick(&[rt::alloc::ReallocMode::Move, rt::alloc::ReallocMode::InPlace, rt::alloc::ReallocMode::Mixed]),
+                    seed: run_seed,
+                    quarantine_cap: 64 << 20,
+                });
+                let (plan, given): (J, Option<Vec<J>>) = match (rmode, focus) {
+                    ("write", _) => {
+                        let d = rng.range(0, 4);
+                        (write::gen_wplan(&mut rng, d), None)
+                    }
+                    ("byz", _) => (byz::gen_case(&mut rng, i), None),
+                    ("read", "typed") if i % 2 == 0 => {
+                        let (p, o) = typed_grid(i / 2, &mut rng);
+                        (p, Some(o))
+                    }
+                    _ => {
+                        let d = rng.range(0, 4);
+                        (node::gen_plan(&mut rng, d, 60), None)
+                    }
+                };
+                journal.reset(&J::obj().set("run", i).set("seed", run_seed).set("profile", profile.as_str()).set("cfg", J::obj()).set("plan", plan.clone()).dump());
+                if let Some(g) = &given {
+                    for o in g {
+                        journal.line(&o.dump());
+                    }
+                }
+                let r = {
+                    let tracked = rt::alloc::track(|| run_one(rmode, focus, &plan, given.as_deref(), &mut rng, steps, &mut journal));
+                    // results were allocated under tracking: copy them out before the leak check
+                    let copy = rt::alloc::untracked(|| tracked.deep_clone());
+                    drop(tracked);
+                    copy
+                };
+                rt::alloc::verify(true);
+                let mut viol = r.viol;
+                for m in rt::alloc::take_violations() {
+                    let props: &[&'static str] = if rmode == "byz" { &["C17"] } else { &["C02", "C11"] };
+                    viol.push(Violation { props: props.to_vec(), kind: format!("alloc:{}", m.split(':').next().unwrap_or("")), detail: m, step: r.steps.saturating_sub(1) });
+                }
+                let leaked = rt::alloc::live_blocks();
+                if !leaked.is_empty() && viol.is_empty() {
+                    let props: &[&'static str] = if rmode == "byz" { &["C17"] } else { &["C03"] };
+                    viol.push(Violation {
+                        props: props.to_vec(),
+                        kind: "leak".into(),
+                        detail: format!("{} blocks still allocated after the run (first: size {}, align {})", leaked.len(), leaked[0].size, leaked[0].align),
+                        step: r.steps.saturating_sub(1),
+                    });
+                }
+                total_steps += r.steps as u64;
+                panics += r.panics;
+                straddles += r.straddles;
+                shortfalls += r.shortfalls;
+                for (k, v) in &r.probes {
+                    *probes.entry(k).or_insert(0) += v;
+                }
+                let mut f = rt::Fnv::default();
+                shape_hash(&plan, &mut f);
+                shapes.insert(f.0);
+                let nontriv = depth(&plan) >= 2 || r.straddles > 0 || rmode == "byz";
+                if nontriv {
+                    let mut g = rt::Fnv::default();
+                    g.u64(f.0);
+                    g.u64(r.digest);
+                    nontrivial.insert(g.0);
+                }
+                if samples.len() < 2 && nontriv && viol.is_empty() && r.steps > 2 {
+                    samples.push(J::obj().set("run", i).set("seed", run_seed).set("plan", plan.clone()).set("ops", J::Arr(r.ops.clone())));
+                }
+                if let Some(f) = emit.as_mut() {
+                    let rec = J::obj().set("run", i).set("seed", run_seed).set("profile", profile.as_str()).set("plan", plan.clone()).set("ops", J::Arr(r.ops.clone())).set("digest", r.digest).set("violated", !viol.is_empty());
+                    let _ = writeln!(f, "{}", rec.dump());
+                }
+                if !viol.is_empty() {
+                    viol_runs += 1;
+                    let rec = J::obj()
+                        .set("type", "violation")
+                        .set("engine", "buf")
+                        .set("profile", profile.as_str())
+                        .set("run", i)
+                        .set("seed", run_seed)
+                        .set("cfg", J::obj())
+                        .set("plan", plan.clone())
+                        .set("ops", J::Arr(r.ops.clone()))
+                        .set("violations", J::Arr(viol.iter().map(|v| v.to_json()).collect()));
+                    let _ = writeln!(out.lock(), "{}", rec.dump());
+                    if viol_runs >= max_viol {
+                        break;
+                    }
+                }
+            }
+            let mut pj = J::obj();
+            for (k, v) in &probes {
+                pj.put(k, *v);
+            }
+            let sum = J::obj()
+                .set("type", "summary")
+                .set("runs", to - from)
+                .set("steps", total_steps)
+                .set("viol_runs", viol_runs)
+                .set("oob_steps", shortfalls)
+                .set("panics", panics)
+                .set("x_straddles", straddles)
+                .set("x_shortfalls", shortfalls)
+                .set("probes", pj)
+                .set("alloc", J::obj())
+                .set("nontrivial", J::Arr(nontrivial.iter().map(|x| J::from(*x)).collect()))
+                .set("state_sample", J::Arr(shapes.iter().map(|x| J::from(*x)).collect()))
+                .set("samples", J::Arr(samples));
+            let _ = writeln!(out.lock(), "{}", sum.dump());
+        }
+        "replay" | "replay-many" => {
+            let path = args.get(2).expect("replay FILE");
+            let txt = std::fs::read_to_string(path).expect("read replay file");
+            let recs: Vec<J> = if mode == "replay" { vec![J::parse(&txt).expect("parse replay file")] } else { txt.lines().filter(|l| !l.trim().is_empty()).map(|l| J::parse(l).expect("parse line")).collect() };
+            let mut any = false;
+            for rec in recs {
+                let profile = rec.str("profile").unwrap_or("laws").to_string();
+                let (rmode, focus) = match profile.as_str() {
+                    "write" => ("write", ""),
+                    "byz" => ("byz", ""),
+                    "typed" => ("read", "typed"),
+                    "adapters" => ("read", "adapters"),
+                    _ => ("read", "laws"),
+                };
+                let plan = rec.get("plan").cloned().unwrap_or(J::obj());
+                let ops: Vec<J> = rec.arr("ops").to_vec();
+                let mut rng = Rng::new(rec.u64("seed"));
+                rt::alloc::begin_run(rt::alloc::AllocCfg { parity: rt::alloc::Parity::Mixed, realloc: rt::alloc::ReallocMode::Mixed, seed: rec.u64("seed"), quarantine_cap: 64 << 20 });
+                let mut journal = Journal::none();
+                let r = {
+                    let tracked = rt::alloc::track(|| run_one(rmode, focus, &plan, Some(&ops), &mut rng, ops.len(), &mut journal));
+                    let copy = rt::alloc::untracked(|| tracked.deep_clone());
+                    drop(tracked);
+                    copy
+                };
+                rt::alloc::verify(true);
+                let mut viol = r.viol;
+                for m in rt::alloc::take_violations() {
+                    let props: &[&'static str] = if rmode == "byz" { &["C17"] } else { &["C02", "C11"] };
+                    viol.push(Violation { props: props.to_vec(), kind: format!("alloc:{}", m.split(':').next().unwrap_or("")), detail: m, step: r.steps.saturating_sub(1) });
+                }
+                let leaked = rt::alloc::live_blocks();
+                if !leaked.is_empty() && viol.is_empty() {
+                    let props: &[&'static str] = if rmode == "byz" { &["C17"] } else { &["C03"] };
+                    viol.push(Violation { props: props.to_vec(), kind: "leak".into(), detail: format!("{} blocks still allocated after the run", leaked.len()), step: r.steps.saturating_sub(1) });
+                }
+                if !viol.is_empty() {
+                    any = true;
+                }
+                let o = J::obj()
+                    .set("type", "replay")
+                    .set("run", rec.u64("run"))
+                    .set("steps", r.steps)
+                    .set("digest", r.digest)
+                    .set("violations", J::Arr(viol.iter().map(|v| v.to_json()).collect()));
+                let _ = writeln!(out.lock(), "{}", o.dump());
+            }
+            std::process::exit(if any && mode == "replay" { 1 } else { 0 });
+        }
+        _ => {
+            eprintln!("usage: buf batch|replay|replay-many ...");
+            std::process::exit(2);
+        }
+    }
+}
